@@ -1403,6 +1403,38 @@ func iteratorsThatAreNotBoundedByDataPollTheContext(c *core.Ctx) {
 		}
 		n++
 		uses := fn.Params[1].Referrers() != nil && len(*fn.Params[1].Referrers()) > 0
+		// ... at every step: the look at the context is on the way to every
+		// return of a value (a look that is taken only every so often, by a
+		// test of the value that counting downwards never passes again, is
+		// no look)
+		if uses {
+			var looks []ssa.Instruction
+			for _, r := range *fn.Params[1].Referrers() {
+				if in, ok := r.(ssa.Instruction); ok {
+					looks = append(looks, in)
+				}
+			}
+			for _, b := range fn.Blocks {
+				for _, in := range b.Instrs {
+					ret, ok := in.(*ssa.Return)
+					if !ok || len(ret.Results) != 2 {
+						continue
+					}
+					if k, isK := spilledResult(b, ret.Results[1]).(*ssa.Const); isK && k.Value != nil && k.Value.ExactString() == "false" {
+						continue
+					}
+					seen := false
+					for _, l := range looks {
+						if instrDominates(l, ret) {
+							seen = true
+						}
+					}
+					if !seen {
+						uses = false
+					}
+				}
+			}
+		}
 		c.Check(uses, "object."+nt.Obj().Name()+".Next|polls-the-context", p.Pos(fn.Pos()),
 			nt.Obj().Name()+" goes through no stored data: how long it yields is a number the script chose"+ife(uses, "; its Next looks at the context", "; its Next ignores the context, so a builtin that drains it (set(1000000000000)) runs on after the evaluation was cancelled"))
 	}
